@@ -187,7 +187,48 @@ func checkC09(p *Prog, c *Check) {
 }
 
 // R9.1
+// delegateDecoder: d is nothing but `return (*U)(recv).UnmarshalBinary(data)` — the decoder of a type with the same
+// underlying type, applied to the same receiver cell and the same input.  Returns that decoder (d itself otherwise):
+// what holds for its body holds for d.
+func delegateDecoder(d *ssa.Function) *ssa.Function {
+	for depth := 0; depth < 3; depth++ {
+		if d == nil || len(d.Blocks) != 1 || len(d.Params) != 2 {
+			return d
+		}
+		ret, ok := terminator(d.Blocks[0]).(*ssa.Return)
+		if !ok || len(ret.Results) != 1 {
+			return d
+		}
+		call, ok := ret.Results[0].(*ssa.Call)
+		if !ok || len(call.Call.Args) != 2 || call.Call.Args[1] != ssa.Value(d.Params[1]) {
+			return d
+		}
+		t := call.Call.StaticCallee()
+		if t == nil || t.Blocks == nil || t.Name() != d.Name() || len(t.Params) != 2 {
+			return d
+		}
+		ct, ok := call.Call.Args[0].(*ssa.ChangeType)
+		if !ok || ct.X != ssa.Value(d.Params[0]) {
+			return d
+		}
+		// nothing else happens in d
+		for _, ins := range d.Blocks[0].Instrs {
+			switch ins.(type) {
+			case *ssa.ChangeType, *ssa.Call, *ssa.Return, *ssa.DebugRef:
+			default:
+				return d
+			}
+		}
+		d = t
+	}
+	return d
+}
+
 func checkWireDecoderRejects(p *Prog, c *Check, d *ssa.Function) {
+	if t := delegateDecoder(d); t != d {
+		c.OK("R9.1", qname(d), p.Pos(d.Pos()), "delegates to "+qname(t)+" on the same receiver cell and input; that decoder's obligations apply")
+		return
+	}
 	pr := NewProver(p, d)
 	pr.assumeContracts()
 	cons := qname(d)
@@ -713,68 +754,44 @@ func findGeoLoopNoGuard(fn *ssa.Function, v ssa.Value) (*geoLoop, string) {
 // R9.4
 func checkBoolDecoder(p *Prog, c *Check, d *ssa.Function) {
 	cons := qname(d)
-	// blocks entered by `data[0] == 0` / `data[0] == 1` true edges
-	okBlocks := map[*ssa.BasicBlock]bool{}
-	vals := map[int64]bool{}
-	for _, b := range d.Blocks {
-		iff, ok := terminator(b).(*ssa.If)
-		if !ok {
-			continue
-		}
-		bo, ok := iff.Cond.(*ssa.BinOp)
-		if !ok || bo.Op != token.EQL {
-			continue
-		}
-		k, isC := constInt(bo.Y)
-		if !isC || (k != 0 && k != 1) {
-			continue
-		}
-		ld, ok := bo.X.(*ssa.UnOp)
-		if !ok || ld.Op != token.MUL {
-			continue
-		}
-		ia, ok := ld.X.(*ssa.IndexAddr)
-		if !ok {
-			continue
-		}
-		if i0, isC := constInt(ia.Index); !isC || i0 != 0 {
-			continue
-		}
-		if _, isP := ia.X.(*ssa.Parameter); !isP {
-			continue
-		}
-		// the true successor must store the matching boolean
-		succ := b.Succs[0]
-		match := false
-		for _, ins := range succ.Instrs {
-			if st, ok := ins.(*ssa.Store); ok && st.Addr == ssa.Value(d.Params[0]) {
-				if cv, ok := stripConvs(st.Val).(*ssa.Const); ok && cv.Value != nil {
-					if (cv.Value.String() == "true") == (k == 1) {
-						match = true
-					}
+	// the decoder is a decision function of one byte: its SSA form is evaluated on all 256 values of data[0]
+	// (with one and with three bytes of input) — success exactly on 0 and 1, storing false and true
+	bad, unk := "", ""
+	for _, n := range []int64{1, 3} {
+		for v := int64(0); v < 256 && bad == "" && unk == ""; v++ {
+			ctx := p.newSym(p.globalInput())
+			ctx.opaqueNonNil["unmarshalErr"] = true
+			ctx.opaqueNonNil["newMalformed"] = true
+			ctx.mem["V"] = sv{k: 'b', b: v%2 == 0} // whatever was there before: the opposite of what 0/1 decode to
+			ctx.mem["DATA[0]"] = sv{k: 'i', i: v}
+			for k := int64(1); k < n; k++ {
+				ctx.mem[fmt.Sprintf("DATA[%d]", k)] = sv{k: 'i', i: 0xAA}
+			}
+			rs, ok := ctx.evalPure(d, []sv{{k: 'p', addr: "V"}, {k: 's', i: n, addr: "DATA"}}, nil, 0)
+			if !ok {
+				unk = fmt.Sprintf("cannot evaluate the decoder on first byte %#02x: %s", v, ctx.why)
+				break
+			}
+			success := isNilResult(rs[0])
+			switch {
+			case v > 1 && success:
+				bad = fmt.Sprintf("first byte %#02x is accepted as a boolean: only 0 and 1 are", v)
+			case v <= 1 && !success:
+				bad = fmt.Sprintf("first byte %#02x is rejected", v)
+			case v <= 1:
+				if got := ctx.mem["V"]; got.k != 'b' || got.b != (v == 1) {
+					bad = fmt.Sprintf("first byte %#02x decodes to %v", v, got)
 				}
 			}
 		}
-		if match {
-			okBlocks[succ] = true
-			vals[k] = true
-		}
 	}
-	okAll := vals[0] && vals[1]
-	for _, b := range d.Blocks {
-		ret, ok := terminator(b).(*ssa.Return)
-		if !ok || !isNilConst(ret.Results[0]) {
-			continue
-		}
-		if reachesAvoiding(d.Blocks[0], b, okBlocks) {
-			okAll = false
-			c.Bad("R9.4", cons, posOf(p, ret), "success is reachable without passing `byte == 0` or `byte == 1`: other byte values are accepted as a boolean")
-		}
-	}
-	if okAll {
-		c.OK("R9.4", cons, p.Pos(d.Pos()), "success only through the edges byte == 0 (stores false) and byte == 1 (stores true); every other value returns an error (R9.1: non-nil)")
-	} else if !(vals[0] && vals[1]) {
-		c.Unk("R9.4", cons, p.Pos(d.Pos()), "the decoder is not a two-way decision on its first byte")
+	switch {
+	case unk != "":
+		c.Unk("R9.4", cons, p.Pos(d.Pos()), unk)
+	case bad != "":
+		c.Bad("R9.4", cons, p.Pos(d.Pos()), bad)
+	default:
+		c.OK("R9.4", cons, p.Pos(d.Pos()), "evaluated on all 256 first bytes: success exactly on 0 (stores false) and 1 (stores true); every other value returns an error")
 	}
 }
 
@@ -1041,6 +1058,7 @@ func checkPropertyLoop(p *Prog, c *Check, cur *Cursor, scope map[*ssa.Function]b
 // byteDecoderIsIdentity: every store through the receiver of the one-byte decoder d stores data[0],
 // changed at most by conversions between types of the same width.
 func (p *Prog) byteDecoderIsIdentity(d *ssa.Function) bool {
+	d = delegateDecoder(d)
 	if len(d.Params) < 2 {
 		return false
 	}
